@@ -223,7 +223,7 @@ def run(report):
             parts = rel.split(".")
             path = PKG / "core" / parts[0] / (parts[1] + ".py")
             report.function(f, path)
-    run_laws(report, MOD, ls, "C11")
+    run_laws(report, MOD, ls, "C11", plain="quick")
     report.extra["exhaustive"] = True
     report.extra["shape_rule"] = ("both directions of the Cartesian-cylindrical and Cartesian-spherical pairs, component counts "
                                   "0..3 (inverse-trigonometric round trips only off the singular set: lengths 1..3, spherical "
